@@ -452,7 +452,7 @@ func RunCheck(p Prop, o Options) int {
 		}
 		if ok == 5 {
 			confirmed = append(confirmed, s)
-		} else if ok == 0 && strings.HasSuffix(s, "hang") {
+		} else if ok == 0 && (strings.HasSuffix(s, "hang") || strings.HasSuffix(s, "/slow")) {
 			// a deadline is a wall-clock limit: a case that missed it once (machine under load) and then
 			// finishes five times out of five is no finding and no sign of a harness defect. The case is
 			// not counted as covered by the first run: the run is not exhaustive.
